@@ -100,6 +100,60 @@ def _is_header_count(fn, atom):
     return bool(ds) and all(re.match(r"^struct\.unpack\('>LLL', .*\)\[2\]$", d) for d in ds)
 
 
+def _is_exit(n):
+    return n.kind == "exit"
+
+
+def stmt_node_of(fn, sub):
+    """The CFG node whose statement contains the AST node `sub` (a store target, a call)."""
+    for n in fn.cfg().nodes:
+        if n.ast is not None and n.kind not in ("entry", "exit", "raise") and any(x is sub for x in ast.walk(n.ast)):
+            return n
+    raise AnalysisError("AST node not found in the CFG of %s" % fn.qual)
+
+
+def param_default(fn, name):
+    """Default expression of parameter `name` (None when it has none / is absent)."""
+    a = fn.node.args
+    pos = list(getattr(a, "posonlyargs", [])) + list(a.args)
+    defaults = [None] * (len(pos) - len(a.defaults)) + list(a.defaults)
+    for p, d in zip(pos, defaults):
+        if p.arg == name:
+            return d
+    for p, d in zip(a.kwonlyargs, a.kw_defaults):
+        if p.arg == name:
+            return d
+    return None
+
+
+def is_const(e, value):
+    return isinstance(e, ast.Constant) and e.value is value
+
+
+_OSERR = {"OSError", "EnvironmentError", "IOError", "Exception", "BaseException"}
+
+
+def exc_protected(cfg, n):
+    """The statement at n sits in a try whose handler catches OSError (bare, OSError family, Exception)."""
+    for (d, lab) in cfg.successors(n):
+        if lab == "exc" and d.kind == "except":
+            t = d.ast.type
+            if t is None:
+                return True
+            elts = t.elts if isinstance(t, ast.Tuple) else [t]
+            for e in elts:
+                nm = e.id if isinstance(e, ast.Name) else (e.attr if isinstance(e, ast.Attribute) else None)
+                if nm in _OSERR:
+                    return True
+    return False
+
+
+def reaches(cfg, src_node, pred):
+    """Some non-exceptional path leads from src_node to a node satisfying pred."""
+    vis, _par = explore(cfg, 0, lambda a_, l_, nx, s_: None if l_ == "exc" else 0, start=src_node)
+    return any(cfg.nodes[i] is not src_node and pred(cfg.nodes[i]) for (i, _s) in vis)
+
+
 def run(ctx: Context):
     idx = ctx.idx
     cg = get_callgraph(idx)
@@ -385,7 +439,8 @@ def run(ctx: Context):
 
     # ---------------------------------------------------------------- 3. abort / timeout / disconnect
     with ctx.rule("C22.3", "R2", "abort removes the incoming file and releases the reservation on every non-closed "
-                  "path; timeout, disconnect and service stop reach abort", expected=7) as r:
+                  "path; timeout, disconnect and service stop reach abort; directory tidying cannot cut the clean-up short; "
+                  "the incoming area is wiped at server start", expected=8) as r:
         ab = idx.func(BW + ".abort")
         cfg = ab.cfg()
         anorm2 = FlowNorm(ab)
@@ -498,9 +553,74 @@ def run(ctx: Context):
             for (n, w) in find_path_avoiding(scfg, is_return, gate_edge=lambda n, lab, _h=h: n is _h and lab == "done"):
                 r.violation(st, st.loc(n.ast), "stopService can return without cancelling in-progress uploads", w)
 
+        # directory tidying must not be able to abort the clean-up: an os.rmdir that precedes the release
+        # (bucket_writer_closed) raises OSError on a non-empty directory - i.e. whenever a sibling share of the
+        # same storage index is still in progress - unless it is guarded by an empty-listdir test of the same
+        # directory or sits in a try that catches OSError.
+        def any_release(n):
+            return any(call_name(c) == "self.ss.bucket_writer_closed" for c in node_calls(n))
+        for m in (ab, idx.func(BW + ".close")):
+            mcfg = m.cfg()
+            mnorm = FlowNorm(m)
+            for n in mcfg.nodes:
+                for c in node_calls(n):
+                    if call_name(c) != "os.rmdir" or len(c.args) != 1:
+                        continue
+                    r.count(1)
+                    if not reaches(mcfg, n, any_release) or exc_protected(mcfg, n):
+                        continue
+                    want = "os.listdir(%s)" % mnorm.norm(n, c.args[0])
+                    bad = find_path_avoiding(mcfg, lambda x, _n=n: x is _n, skip_exc_edges=True,
+                                             gate_edge=lambda x, lab, _w=want: mnorm.edge_fact(x, lab) == ("false", _w, None))
+                    for (t, w) in bad:
+                        r.violation(m, m.loc(c), "%s removes %s without checking that it is empty and outside a try: with a "
+                                    "sibling share still in progress the OSError escapes before bucket_writer_closed - "
+                                    "the reservation is kept and the writer never becomes closed" % (short(m), src(m, c.args[0])), w)
+
+        # uploads cut off by a server crash: the incoming area is wiped when the server object is created/started
+        ss_cls = idx.cls(SS)
+        sinit2 = idx.func(SS + ".__init__")
+        inc_vals = set()
+        for n in sinit2.cfg().nodes:
+            v = assign_value(n, "self.incomingdir")
+            if v is not None:
+                inc_vals.add(FlowNorm(sinit2).norm(n, v))
+
+        def wipes_in(m):
+            mn = FlowNorm(m)
+
+            def p(n):
+                for c in node_calls(n):
+                    if call_tail(c) in ("rm_dir", "rmtree") and c.args and (
+                            attr_path(c.args[0]) == "self.incomingdir" or mn.norm(n, c.args[0]) in inc_vals):
+                        return True
+                return False
+            return p
+        helpers = set()
+        for m in ss_cls.methods.values():
+            if m.name in ("__init__", "startService"):
+                continue
+            if calls_in_func(m, "rm_dir") or calls_in_func(m, "rmtree"):
+                p = wipes_in(m)
+                if m.cfg().find(p) and not find_path_avoiding(m.cfg(), _is_exit, gate_node=p, skip_exc_edges=True):
+                    helpers.add("self." + m.name)
+        starters = [m for m in (ss_cls.methods.get("__init__"), ss_cls.methods.get("startService")) if m is not None]
+        cleaned = False
+        for m in starters:
+            p = wipes_in(m)
+
+            def cleans(n, _p=p):
+                return _p(n) or any(call_name(c) in helpers for c in node_calls(n))
+            if m.cfg().find(cleans) and not find_path_avoiding(m.cfg(), _is_exit, gate_node=cleans, skip_exc_edges=True):
+                cleaned = True
+                r.site(m, None, "incoming wiped at start")
+        r.require(cleaned, sinit2, sinit2.loc(), "the incoming directory is not wiped when the storage server is created: "
+                  "partial shares of uploads cut off by a crash stay behind for ever and block re-upload of those shares")
+
     # ---------------------------------------------------------------- 4. clipped read
     with ctx.rule("C22.4", "R5", "read_share_data reads max(0, min(length, lease_offset - (data_offset+offset))) bytes "
-                  "at data_offset+offset; BucketReader.read passes (offset, length) through", expected=3) as r:
+                  "at data_offset+offset, only for offset >= 0; BucketReader.read passes (offset, length) through; "
+                  "_length is the size of the data region", expected=4) as r:
         rd = idx.func(SF + ".read_share_data")
         rcfg = rd.cfg()
         rn_ = FlowNorm(rd)
@@ -523,6 +643,11 @@ def run(ctx: Context):
                 return any(len(cc.args) == 1 and rn_.norm(m, cc.args[0]) == want_pos for cc in calls_at(m, "seek"))
             for (t, w) in find_path_avoiding(rcfg, lambda x, _n=n: x is _n, gate_node=seeks):
                 r.violation(rd, rd.loc(c), "the read is not positioned at data_offset+offset", w)
+            # a negative offset would position the read inside the 12-byte header
+            for (t, w) in find_path_avoiding(rcfg, lambda x, _n=n: x is _n, skip_exc_edges=True,
+                                             gate_edge=lambda m, lab: rn_.edge_fact(m, lab) == ("<=", "0", o)):
+                r.violation(rd, rd.loc(c), "share data is read without the %s >= 0 check: a negative offset returns "
+                            "container header bytes instead of share data" % o, w)
         for n in rcfg.find(is_return):
             v = n.ast.value
             if v is None:
@@ -578,6 +703,24 @@ def run(ctx: Context):
                       "creation, filesize - num_leases*LEASE_SIZE on open)" % p)
         if n_lo < 2:
             raise AnchorVanished("ShareFile.__init__ no longer sets _lease_offset on both branches")
+        # get_length() (= self._length) clips HTTP range reads: it must be the size of the data region,
+        # _lease_offset - 12, computed from the same file size / lease count
+        open_polys = [inorm.at(n).poly(v) for n in ini.cfg().nodes for v in [assign_value(n, "self._lease_offset")]
+                      if v is not None]
+        open_polys.append(N().poly(parse_expr("self._lease_offset")))
+        n_len = 0
+        for n in ini.cfg().nodes:
+            v = assign_value(n, "self._length")
+            if v is None:
+                continue
+            n_len += 1
+            r.site(ini, n.ast, "_length")
+            q = inorm.at(n).poly(ast.BinOp(left=v, op=ast.Add(), right=ast.Constant(value=12)))
+            r.require(any(q == p_ for p_ in open_polys), ini, ini.loc(n.ast), "the share length reported to readers is %s, "
+                      "not the size of the data region (end of data - 12-byte header): range reads are clipped at the "
+                      "wrong place" % src(ini, v))
+        if n_len == 0:
+            raise AnchorVanished("ShareFile.__init__ no longer sets _length")
         dvals = [(n, v) for n in ini.cfg().nodes for v in [assign_value(n, "self._data_offset")] if v is not None]
         if not dvals:
             raise AnchorVanished("ShareFile.__init__ no longer sets _data_offset")
@@ -619,6 +762,10 @@ def run(ctx: Context):
                 return any(len(cc.args) == 1 and wn_.norm(m, cc.args[0]) == want_pos for cc in calls_at(m, "seek"))
             for (t, w) in find_path_avoiding(wcfg, lambda x, _n=n: x is _n, gate_node=seeks):
                 r.violation(wr, wr.loc(c), "the write is not positioned at data_offset+offset (reads use that position)", w)
+            for (t, w) in find_path_avoiding(wcfg, lambda x, _n=n: x is _n, skip_exc_edges=True,
+                                             gate_edge=lambda m, lab: wn_.edge_fact(m, lab) == ("<=", "0", o)):
+                r.violation(wr, wr.loc(c), "share data is written without the %s >= 0 check: a negative offset "
+                            "overwrites the container header (version, lease count) that reads depend on" % o, w)
         # the too-large edge raises
         for n in wcfg.nodes:
             for (dd, lab) in wcfg.succ[n.id]:
